@@ -892,11 +892,15 @@ def f5_halved_offsets(ctx, repo):
         if rel.endswith("_l_o_c_a.py"):
             ok = False
             for t, pol in atoms:
-                if pol and isinstance(t, ast.Call) and call_name(t) == "all" and t.args and isinstance(t.args[0], (ast.GeneratorExp, ast.ListComp)):
+                # all(l % 2 == 0 ...) holds, or any(l % 2 != 0 ...) / any(l % 2 ...) does not
+                if isinstance(t, ast.Call) and call_name(t) in ("all", "any") and t.args and isinstance(t.args[0], (ast.GeneratorExp, ast.ListComp)):
                     g = t.args[0]
                     it = norm(g.generators[0].iter)
                     elt = norm(g.elt)
-                    ok = ok or (it == "self.locations" and "% 2" in elt and "== 0" in elt)
+                    even = "% 2" in elt and "== 0" in elt
+                    odd = "% 2" in elt and ("!= 0" in elt or "== 1" in elt or elt.strip("()").endswith("% 2"))
+                    if it == "self.locations" and (call_name(t) == "all" and pol and even or call_name(t) == "any" and not pol and odd):
+                        ok = True
             ctx.ob("F5-half", w.where, "short loca only when all(l % 2 == 0 for l in self.locations)", ok, "" if ok else "an odd intermediate offset is floored: loca no longer points at the glyph")
             fm = [st for st in walk_no_nested(w.node) if isinstance(st, ast.Assign) and "indexToLocFormat" in norm(st.targets[0])]
             short = [norm(st) for st in fm if implied_conditions(gw, st) == short_facts]
@@ -999,10 +1003,14 @@ def _consts(node, kinds):
     """collect integer constants by role: shifts (>>, <<), masks (&), mod (%), steps (range third arg)"""
     out = {"rshift": [], "lshift": [], "and": [], "mod": [], "or": []}
     for n in ast.walk(node):
-        if isinstance(n, ast.BinOp) and isinstance(n.right, ast.Constant) and isinstance(n.right.value, int):
+        if isinstance(n, ast.BinOp):
             k = {ast.RShift: "rshift", ast.LShift: "lshift", ast.BitAnd: "and", ast.Mod: "mod", ast.BitOr: "or"}.get(type(n.op))
-            if k:
-                out[k].append(n.right.value)
+            if not k:
+                continue
+            # a literal, or a named module constant that folds to one
+            v = n.right.value if isinstance(n.right, ast.Constant) else (try_fold(n.right) if isinstance(n.right, (ast.Name, ast.Attribute)) else None)
+            if isinstance(v, int) and not isinstance(v, bool):
+                out[k].append(v)
     return {k: out[k] for k in kinds}
 
 
@@ -1010,12 +1018,14 @@ def text_helpers(ctx, repo):
     ctx.rule("TXT-pair", "textTools: hexStr prints the high nibble then the low nibble of each byte and deHexStr reads two digits per byte in base 16; num2binary emits the low bit first, prepends, and groups by 8, binary2num shifts left by one per digit; pad rounds up to the next multiple", floor=5)
     mod = repo.mod("misc/textTools.py")
     h = mod.func("hexStr")
-    cat = next((st.value for st in ast.walk(h.node) if isinstance(st, ast.Assign) and isinstance(st.value, ast.BinOp) and norm(st.targets[0]) == "r"), None)
+    # the accumulating concatenation `acc = acc + <digit> + <digit>`, whatever the accumulator is called
+    cat = next((st.value for st in ast.walk(h.node) if isinstance(st, ast.Assign) and isinstance(st.value, ast.BinOp) and isinstance(st.targets[0], ast.Name) and any(isinstance(x, ast.Name) and x.id == st.targets[0].id for x in ast.walk(st.value)) and any(isinstance(x, ast.BinOp) and isinstance(x.op, ast.RShift) for x in ast.walk(st.value))), None)
     parts = []
     n = cat
     while isinstance(n, ast.BinOp) and isinstance(n.op, ast.Add):
         parts.insert(0, n.right)
         n = n.left
+    parts = [p_ for p_ in parts if not isinstance(p_, ast.Name)]
     roles = []
     for p_ in parts:
         c = _consts(p_, ("rshift", "and"))
@@ -1029,14 +1039,17 @@ def text_helpers(ctx, repo):
     if ints and isinstance(ints[0].args[0], ast.Subscript) and isinstance(ints[0].args[0].slice, ast.Slice):
         lin = _linear_diff(ints[0].args[0].slice)
         width = lin
-    ok = bool(rng) and try_fold(rng[0].args[2]) == 2 and bool(ints) and try_fold(ints[0].args[1]) == 16 and width == 2
+    env_ = module_env(repo, mod)
+    ok = bool(rng) and try_fold(rng[0].args[2], env_) == 2 and bool(ints) and try_fold(ints[0].args[1], env_) == 16 and (width == 2 or isinstance(width, str) and try_fold(ast.parse(width, mode="eval").body, env_) == 2)
     ctx.ob("TXT-pair", d.where, f"deHexStr: step {try_fold(rng[0].args[2]) if rng else None}, digits per byte {width}, base {try_fold(ints[0].args[1]) if ints else None}", ok)
     padfix = [st for st in ast.walk(d.node) if isinstance(st, ast.Assign) and isinstance(st.value, ast.BinOp) and isinstance(st.value.op, ast.Add) and isinstance(st.value.right, ast.Constant) and st.value.right.value == "0" and norm(st.value.left) == norm(st.targets[0])]
     ctx.ob("TXT-pair", d.where, "an odd number of digits is completed with a trailing '0'", bool(padfix), "" if padfix else "the half byte is completed at the wrong end (or not at all)")
     nb, bn = mod.func("num2binary"), mod.func("binary2num")
     c1, c2 = _consts(nb.node, ("rshift", "and", "mod")), _consts(bn.node, ("lshift", "or"))
-    pre = [st for st in ast.walk(nb.node) if isinstance(st, ast.Assign) and norm(st.targets[0]) == "binary" and isinstance(st.value, ast.BinOp) and isinstance(st.value.left, ast.Constant) and norm(st.value.right) == "binary"]
-    ok = c1["rshift"] == [1] and c1["and"] == [1] and c1["mod"] == [8] and len(pre) == 2 and c2["lshift"] == [1] and c2["or"] == [1]
+    # `acc = "<bit>" + acc` for both bit values; the group size may be a named constant
+    pre = [st for st in ast.walk(nb.node) if isinstance(st, ast.Assign) and isinstance(st.targets[0], ast.Name) and isinstance(st.value, ast.BinOp) and isinstance(st.value.op, ast.Add) and isinstance(st.value.left, ast.Constant) and st.value.left.value in ("0", "1") and norm(st.value.right) == st.targets[0].id]
+    mods_ = c1["mod"] or [try_fold(x.right, module_env(repo, mod)) for x in ast.walk(nb.node) if isinstance(x, ast.BinOp) and isinstance(x.op, ast.Mod)]
+    ok = c1["rshift"] == [1] and c1["and"] == [1] and mods_ == [8] and len(pre) == 2 and {st.value.left.value for st in pre} == {"0", "1"} and c2["lshift"] == [1] and c2["or"] == [1]
     ctx.ob("TXT-pair", nb.where, f"num2binary {c1}, prepends each bit ({len(pre)} sites); binary2num {c2}", ok)
     pf = mod.func("pad")
     mods = [norm(n) for n in ast.walk(pf.node) if isinstance(n, ast.BinOp) and isinstance(n.op, ast.Mod)]
@@ -1053,6 +1066,11 @@ def _linear_diff(sl):
         return None
     a, b = _linear(sl.lower), _linear(sl.upper)
     if a is None or b is None or a[0] != b[0]:
+        # `i : i + NAMED_CONSTANT`
+        lo, up = norm(sl.lower), norm(sl.upper)
+        if isinstance(sl.upper, ast.BinOp) and isinstance(sl.upper.op, ast.Add) and norm(sl.upper.left) == lo:
+            k = try_fold(sl.upper.right)
+            return k if isinstance(k, int) else None
         return None
     return b[1] - a[1]
 
